@@ -100,6 +100,9 @@ func genPub(t *rapid.T, p *Plan, retainOK bool) Op {
 	if retainOK && rapid.IntRange(0, 2).Draw(t, "retain") == 0 {
 		op.Retain = true
 	}
+	if op.PQ > 0 && rapid.IntRange(0, 5).Draw(t, "dup") == 0 {
+		op.Dup = true
+	}
 	return op
 }
 
